@@ -538,6 +538,14 @@ func (ex *Exec) checkPost(st *State, fr *Frame, res Value) {
 	pos := fr.Fn.Pos()
 	for i, c := range sp.Ensures {
 		t := ex.evalBool(env, c.Expr)
+		if k, ok := sp.Known[c.Label]; ok && c.Label != "" {
+			// a recorded finding: the clause must hold outside the recorded region; inside it, it is
+			// expected to fail (matched against known_findings.json by obligation name)
+			r := ex.evalBool(env, k.Expr)
+			ex.emit(st, "post", clauseLabel(c, i)+"/outside-region", Implies(Not(r), t), pos, mergeProps(sp.Props, c.Props))
+			ex.emit(st, "post", clauseLabel(c, i)+"/in-region", Implies(r, t), pos, mergeProps(sp.Props, c.Props))
+			continue
+		}
 		ex.emit(st, "post", clauseLabel(c, i), t, pos, mergeProps(sp.Props, c.Props))
 	}
 	// lock balance: the function returns with exactly the locks it was entered with
@@ -613,6 +621,23 @@ func (ex *Exec) VerifyFunc(sp *FuncSpec) {
 	}
 	fr.EntryFull = st.snapshotFull()
 	fr.Mods = ex.allowedMods(st, fr)
+	if call, ok := sp.Replay.(*ast.CallExpr); ok {
+		for _, a := range call.Args {
+			tv := env.eval(a)
+			ex.ReplayArgs = append(ex.ReplayArgs, tv)
+			isLen := false
+			if c2, ok := a.(*ast.CallExpr); ok {
+				if id, ok := c2.Fun.(*ast.Ident); ok && id.Name == "len" {
+					isLen = true
+				}
+			}
+			ex.ReplayLen = append(ex.ReplayLen, isLen)
+		}
+		if id, ok := call.Fun.(*ast.Ident); ok {
+			ex.ReplayFn = id.Name
+		}
+		ex.ReplayPkg = pkgOfFn(fn)
+	}
 	// vacuity guard: the precondition must be satisfiable
 	ex.Obls = append(ex.Obls, &Obligation{Name: sp.Name + "#vacuity:requires-satisfiable", Kind: "vacuity", Func: sp.Name, Vacuity: true,
 		Q: &Query{Assumes: st.PC.list(), Goal: False}})
